@@ -411,7 +411,7 @@ fn run_cloudconc(args: &Args) {
     let mut ops = std::io::BufWriter::new(std::fs::File::create(args.out.join("ops.txt")).unwrap());
     let mut imp = std::io::BufWriter::new(std::fs::File::create(args.out.join("impl.out")).unwrap());
     let mut stats: std::collections::HashMap<String, u64> = std::collections::HashMap::new();
-    let cleanup = args.flags.iter().any(|f| f == "--cleanup");
+    let cleanup = args.flags.iter().any(|f| f == "--cleanup") || std::env::args().nth(1).as_deref() == Some("cleanconc");
     let mut cases: Vec<(String, Option<Vec<String>>, Rng, usize)> = Vec::new();
     let mut files: Vec<PathBuf> = Vec::new();
     if let Some(r) = &args.replay {
@@ -451,7 +451,7 @@ fn run_cloudconc(args: &Args) {
                 }
                 None => (2 + crng.below(3) as usize, None),
             };
-            let mut run = cloudconc::Conc::new(n);
+            let mut run = cloudconc::Conc::new(n, cleanup);
             lines.push(format!("CLIENTS {}", n));
             outs.push(String::new());
             let mut g = cloudconc::ConcGen { n, acked: Vec::new(), nd: 0, cleanup };
@@ -790,7 +790,7 @@ fn main() {
         "seal" => run_seal(&args),
         "backend" => run_backend(&args),
         "wire" => run_wire(&args),
-        "cloudconc" => run_cloudconc(&args),
+        "cloudconc" | "cleanconc" => run_cloudconc(&args),
         f => {
             eprintln!("unknown family {}", f);
             std::process::exit(2);
